@@ -306,7 +306,8 @@ CLAIMED = {
              "functions return. convolve_shape_or_raise / adjoint_shape_or_raise: for ALL argument combinations (ranks, channel "
              "counts, strides argument, mode string, filter longer than data, dtypes, shape of the output-side array) the functions "
              "return an array of exactly the computed shape b + (c_o,) + p / the requested data_shape / filt_shape with that many "
-             "elements, or an error - and an array is returned only on an admitted call. The four Linop classes are interpreted "
+             "elements, or an error - and an array is returned only on an admitted call; convolve_raises_iff / adjoint_raises_iff: the "
+             "calls that raise are exactly the non-admitted ones. The four Linop classes are interpreted "
              "from their generated descriptions (linopShapes / linopAdjoint / linopApply run by the driver): linop_H_wiring (.H is "
              "the partner class with the same arguments and swapped shapes, for every mode / strides / multi_channel), "
              "linop_apply_wiring (_apply is the right conv function with the stored arguments), linop_data_pairing / "
